@@ -61,6 +61,7 @@ func s2alphabet() []s2req {
 func runS2(t *testing.T, seq []s2req) (fs []finding, responded int) {
 	fail := engine.Bubble(t, func() {})
 	_ = fail
+	engine.GCPoint(1)
 	synctest.Test(t, func(t *testing.T) {
 		srv := newServer(t, stateWith("se-a", "se-b").objects())
 		ctx, cancel := newPeerCtx()
